@@ -149,6 +149,8 @@ func (d *dir) RepoGet(ctx context.Context, repoStr string) (Repo, error) {
 		name:    repoStr,
 		conf:    d.conf,
 		log:     d.log,
+		// blobs may be younger than the index, the GC passes visit a repo for a grace period after it was opened
+		timeMod: time.Now(),
 	}
 	uploadCacheOpts := cache.Opts[string, *dirRepoUpload]{
 		PruneFn:     func(_ string, dru *dirRepoUpload) error { return dru.delete() },
